@@ -18,6 +18,8 @@ Template directives (lines starting with `//@`):
   //@ after-loop <n>           following lines are inserted after the closing brace of the n-th loop
   //@ loop-begin <n> / loop-end <n>   following lines go at the start / end of the n-th loop's body (structural anchors)
   //@ params <a> <b> ..        alpha-rename the non-self parameters, by position, to these names (rule R7)
+  //@ locals <a> <b> ..        pinned names of the simple let/for/if-let bindings in order of first binding; a body whose
+                               bindings differ only by name is alpha-renamed back to them (rule R7b)
   //@ subst "<old>" => "<new>" [count=<k>]   literal replacement in the body, site count checked (logged as R-local)
   //@ end
 
@@ -384,6 +386,62 @@ def rule_r7_rename_params(header, body, names, log, where, spec):
     return header, body
 
 
+_BIND_PATS = [
+    r'\blet\s+(?:mut\s+)?([a-z_]\w*)\b(?!\s*[:(]{2})',                 # let x / let mut x
+    r'\blet\s+(?:mut\s+)?\(([^()]*)\)\s*=',                             # let (a, b) =
+    r'\bfor\s+([a-z_]\w*)\s+in\b',                                       # for x in
+    r'\bfor\s+\(([^()]*)\)\s+in\b',                                      # for (a, b) in
+    r'\b(?:if|while)\s+let\s+Some\(\s*([a-z_]\w*)\s*\)\s*=',            # if let Some(x) =
+]
+
+
+def local_names(body):
+    """Distinct names bound by simple let / for / if-let patterns, in order of first binding."""
+    kind = rs.code_mask(body)
+    found = []
+    for pat in _BIND_PATS:
+        for s_, e_, m in rs.find_code(body, kind, pat, 0, len(body)):
+            g = m.group(1)
+            for nm in re.findall(r'[a-z_]\w*', g):
+                if nm in ('mut', 'ref', '_', 'ghost', 'tracked'):
+                    continue
+                found.append((s_, nm))
+    found.sort()
+    out = []
+    for _, nm in found:
+        if nm not in out:
+            out.append(nm)
+    return out
+
+
+def rule_r7b_rename_locals(body, pinned, log, where):
+    """Alpha-rename local bindings, by order of first binding, to the names the contract was written against.
+       Applies only when the number of distinct simple bindings is unchanged; otherwise the body is left alone."""
+    cur = local_names(body)
+    if cur == pinned or len(cur) != len(pinned):
+        return body
+    ren = [(a, b) for a, b in zip(cur, pinned) if a != b]
+    # never rename onto a name that is otherwise in use
+    for a, b in ren:
+        if b in cur and (b, [x for x, y in ren if y == b]) and b not in [x for x, _ in ren]:
+            return body
+    kind = rs.code_mask(body)
+    tmp = {a: '__r7b_%d' % i for i, (a, b) in enumerate(ren)}
+    fin = {'__r7b_%d' % i: b for i, (a, b) in enumerate(ren)}
+
+    def rename(text, mapping):
+        k = rs.code_mask(text)
+        out, last = [], 0
+        pat = r'(?<![\w.])(' + '|'.join(re.escape(a) for a in mapping) + r')\b'
+        for s_, e_, m_ in rs.find_code(text, k, pat, 0, len(text)):
+            out.append(text[last:s_]); out.append(mapping[m_.group(1)]); last = e_
+        out.append(text[last:])
+        return ''.join(out)
+    body = rename(rename(body, tmp), fin)
+    log.hit('R7b.rename_locals', len(ren), '%s: %s' % (where, ren))
+    return body
+
+
 def rule_r6_mut_param(header, body, log, where):
     """`fn f(.., mut x: T, ..) { B }` -> `fn f(.., x: T, ..) { let mut x_ = x; B[x := x_] }` (opt-in, `rules=R6`):
        lets loop invariants name the parameter's entry value.  Same moves, same mutations."""
@@ -525,6 +583,7 @@ class FnDirective:
         self.substs = []     # (old, new, count)
         self.norules = set()
         self.params = None    # positional names for the parameters (alpha-renaming, rule R7)
+        self.locals = None    # pinned names of the simple local bindings, in order of first binding (rule R7b)
         self.loop_end = {}    # n -> lines inserted before the closing brace of the n-th loop body
         self.loop_begin = {}  # n -> lines inserted after the opening brace of the n-th loop body
         self.before_loop = {} # n -> lines inserted before the n-th loop statement
@@ -585,6 +644,8 @@ def apply_fn(d, log, fnmap, out_lineno):
         header = header[:pc + 1] + m.group(1) + '(' + d.ret + ': ' + m.group(2).strip() + ')' + m.group(3)
     if d.params is not None:
         header, body = rule_r7_rename_params(header, body, d.params, log, where, d.spec)
+    if d.locals is not None:
+        body = rule_r7b_rename_locals(body, d.locals, log, where)
     # body rewrites (closed list)
     header, body = rule_r5_mut_self(header, body, log, where)
     if 'R6' in d.opts.get('rules', ''):
@@ -910,6 +971,9 @@ def expand(template_path, out_path, extra_tail=''):
                         m = re.match(r'loop\s+(\d+)(\s+iter\s+(\w+))?', c2)
                         cur = []
                         d.loops[int(m.group(1))] = (m.group(3), cur)
+                    elif c2.startswith('locals'):
+                        d.locals = c2[6:].split()
+                        cur = None
                     elif c2.startswith('params '):
                         d.params = c2[7:].split()
                         cur = None
